@@ -1747,6 +1747,12 @@ class Fxp():
     # numpy functions dispatch
     def __array_ufunc__(self, ufunc, method, *inputs, **kwargs):
         if method == '__call__':
+            if ufunc in _UFUNC_REFLECTED_OPERATORS and len(inputs) == 2 and not kwargs \
+                and isinstance(inputs[1], Fxp) and not isinstance(inputs[0], Fxp):
+                # a NumPy scalar or array on the left of an operator (np.float64(0.3) * x): NumPy dispatches the operator here;
+                # the left operand is a constant like a python number in that place, the reflected operator deals with it
+                return getattr(inputs[1], _UFUNC_REFLECTED_OPERATORS[ufunc])(inputs[0])
+
             if ufunc in _NUMPY_HANDLED_FUNCTIONS:
                 # dispatch function to implemented in fxpmath
                 return self._set_array_output_type(_NUMPY_HANDLED_FUNCTIONS[ufunc](*inputs, **kwargs))
@@ -2397,6 +2403,9 @@ class Config():
 # ----------------------------------------------------------------------------------------
 # Internal functions
 # ----------------------------------------------------------------------------------------
+_UFUNC_REFLECTED_OPERATORS = {np.add: '__radd__', np.subtract: '__rsub__', np.multiply: '__rmul__', np.true_divide: '__rtruediv__',
+                              np.floor_divide: '__rfloordiv__', np.remainder: '__rmod__'}
+
 def implements(*np_functions):
    "Register an __array_function__ implementation for Fxp objects."
    def decorator(fxp_func):
